@@ -11,7 +11,7 @@ N_other == <<111, 116, 104, 101, 114, 45, 102, 109, 116>>     \* "other-fmt"
 N_pk2   == <<112, 117, 98, 108, 105, 99>>                     \* "public" (not "public-key")
 
 ParamAlphabet == {ParamOf(ALG_ES256), ParamOf(ALG_EdDSA), ParamOf(-257), [alg |-> ALG_ES256, type |-> N_pk2]}
-FormatAlphabet == {N_packed, N_none, N_tpm, N_other}
+FormatAlphabet == {N_packed, N_none, N_tpm, N_other, N_fidoU2f}
 
 SeqsUpTo(A, n) == UNION {[1..k -> A] : k \in 0..n}
 
